@@ -7,6 +7,7 @@ sub-call, last file/dir/time survive close.  Not decided: that the C cursor equa
 from __future__ import annotations
 
 import ast
+import re
 
 from ..core import Rule, AnalysisError, C_LIB, C_EXT, norm
 from .. import cfront, clib, cfg as _cfg, pyfront
@@ -158,52 +159,88 @@ def r2_affine_invariant(repo=None):
     return r
 
 
+def _returned_texts(tu, fn, depth=0, keep=()):
+    """Source texts (whitespace-free) of the values a function can return, following one level of single-return
+    TU helpers (the helper's parameter names are substituted by the call's arguments) and local temporaries."""
+    out = []
+    g = _cfg.build_c(fn)
+    for ret in fn.find("ReturnStmt"):
+        if not ret.children:
+            continue
+        e = ret.children[0].strip(casts=True)
+        n = clib.node_of(g, ret)
+        for t in clib.expand(fn, g, n.id, e, keep=keep):
+            out.append((t, ret))
+        if e.kind == "CallExpr" and e.callee in tu.functions and depth < 2:
+            callee = tu.functions[e.callee]
+            params = [p.name for p in callee.children if p.kind == "ParmVarDecl"]
+            for t, _ in _returned_texts(tu, callee, depth + 1, keep):
+                for pn, a in zip(params, e.args):
+                    t = re.sub(r"(?<![A-Za-z0-9_])%s(?![A-Za-z0-9_])" % re.escape(pn), re.sub(r"\s", "", a.src), t)
+                out.append((t, ret))
+    return out
+
+
 def r3_extension_returns_cursor(repo=None):
     r = Rule("C19.R3", "each successful write returns the C library's cursor read after the last library call")
     tu = cfront.ext(repo)
     for fname in ("_py_rf_write_hdf5_rf_write", "_py_rf_write_hdf5_rf_block_write"):
         fn = tu.fn(fname)
         g = _cfg.build_c(fn)
-        bv = fn.calls(("Py_BuildValue",))
-        if len(bv) != 1:
-            raise AnalysisError("%s: expected one Py_BuildValue" % fname)
-        arg = bv[0].args[1].path()
-        fmt = bv[0].args[0].strval()
         libcalls = [c for c in fn.calls(("digital_rf_write_hdf5", "digital_rf_write_blocks_hdf5"))]
-        bn = c05._node_of(g, bv[0])
+        if not libcalls:
+            raise AnalysisError("%s: no library write call found" % fname)
+        objs = {c.args[0].path() for c in libcalls}
+        if len(objs) != 1:
+            raise AnalysisError("%s: library calls use different writer objects %s" % (fname, objs))
+        obj = objs.pop()
+        rets = _returned_texts(tu, fn, keep=(obj,))
+        succ = [(t, ret) for t, ret in rets if "Py_BuildValue" in t]
+        if not succ:
+            raise AnalysisError("%s: no return value built with Py_BuildValue found" % fname)
         ln = [c05._node_of(g, c).id for c in libcalls]
-        # a library call inside `for (i=0; i<X; i++)` that is itself guarded by `X > 1` runs at least once:
+        # a library call inside `for/while (i < X)` that is itself guarded by `X > 1` runs at least once:
         # treat the loop's condition node as passing the call (zero-trip path is infeasible)
         for c in libcalls:
-            loops = [a for a in c.ancestors() if a.kind == "ForStmt"]
+            loops = [a for a in c.ancestors() if a.kind in ("ForStmt", "WhileStmt")]
             if not loops:
                 continue
             lp = loops[0]
-            init, _, cond, inc, body = lp.children
-            i0, c0 = init.strip(), cond.strip()
-            if i0.kind == "BinaryOperator" and i0.opcode == "=" and i0.children[1].intval() == 0 and c0.kind == "BinaryOperator" \
-                    and c0.opcode == "<" and c0.children[0].path() == i0.children[0].path():
+            cond = lp.children[2] if lp.kind == "ForStmt" else lp.children[0]
+            c0 = cond.strip()
+            if c0.kind == "BinaryOperator" and c0.opcode == "<":
                 bound = c0.children[1].path()
+                ctr = c0.children[0].path()
+                starts0 = any(p == ctr and rhs is not None and rhs.intval() == 0 for p, n_, rhs, k in clib.stores(fn)) or any(
+                    d.name == ctr and d.children and d.children[-1].intval() == 0 for d in fn.find("VarDecl"))
                 guarded = False
                 for a in lp.ancestors():
-                    if a.kind == "IfStmt" and a.children[1].begin <= lp.begin <= a.children[1].end:
+                    if a.kind == "IfStmt":
+                        in_then = a.children[1].begin <= lp.begin <= a.children[1].end
                         for x in a.children[0].walk():
-                            if x.kind == "BinaryOperator" and x.opcode in (">", ">=") and x.children[0].path() == bound \
-                                    and (x.children[1].intval() or 0) >= 1:
-                                guarded = True
-                if guarded:
+                            if x.kind == "BinaryOperator" and x.children[0].path() == bound:
+                                v = x.children[1].intval()
+                                if in_then and x.opcode in (">", ">=") and (v or 0) >= 1:
+                                    guarded = True
+                                if not in_then and x.opcode in ("<=", "<") and v is not None and v >= 1:
+                                    guarded = True  # else-branch of `X <= 1 || ...`
+                if guarded and starts0:
                     cn = [n for n in g.nodes if n.kind == "cond" and n.ast is not None and n.ast.begin == c0.begin]
                     ln.extend(x.id for x in cn)
-        dominated = bn.id not in g.reach([g.entry.id], avoid=ln)
-        # the value returned is the node's own return
-        rets = [n for n in g.nodes if n.kind == "return" and n.id in g.reach([bn.id])]
-        retvar = bv[0].parent
-        if arg == "hdf5_write_data_object->global_index" and fmt == "K" and dominated:
-            r.ok("%s:%s %s" % (C_EXT, bv[0].line, fname), "returns Py_BuildValue(\"K\", hdf5_write_data_object->global_index), "
-                 "dominated by the library write call(s)")
-        else:
-            r.violation(C_EXT, fname, bv[0].nsrc, "the value returned to Python is not the library cursor read after the write "
-                        "(arg %s, format %r, dominated=%s)" % (arg, fmt, dominated), line=bv[0].line)
+        for t, ret in succ:
+            bn = clib.node_of(g, ret)
+            dominated = bn.id not in g.reach([g.entry.id], avoid=ln)
+            m_ = re.search(r'Py_BuildValue\("(\w+)",(.+?)\)+$', t)
+            arg = m_.group(2) if m_ else None
+            fmt = m_.group(1) if m_ else None
+            want = "%s->global_index" % obj
+            if arg is not None and arg.strip("()") == want and fmt == "K" and dominated:
+                r.ok("%s:%s %s" % (C_EXT, ret.line, fname), "returns Py_BuildValue(\"K\", %s), dominated by the library write call(s)" % want)
+            elif arg is None:
+                raise AnalysisError("%s: returned value not recognised: %s" % (fname, t[:80]))
+            else:
+                r.violation(C_EXT, fname, "returns Py_BuildValue(\"%s\", %s)" % (fmt, arg), "the value returned to Python is not the library "
+                            "cursor `%s` read after the write (dominated by a library call: %s)" % (want, dominated), line=ret.line)
     r.guard(2)
     return r
 
